@@ -275,6 +275,93 @@ pub fn run(ctx: &Ctx) -> i32 {
             Err(p) => ev.violate("lookup-panic", format!("Default containers: {}", p), J::s("Default containers")),
         }
     }
+    // ONE container shared by many threads that look keys up and stream at the same time (Fst/Map/Set are Sync): whatever a reader
+    // caches lazily inside the container must be safe to fill from several threads at once
+    {
+        let mut picked: Vec<Kv> = vec![];
+        for f in &fams {
+            if matches!(f.name, "fanout" | "random" | "fanout-x-width" | "duplicated-wide-fans" | "single-bytes") {
+                for j in 0..3usize {
+                    let c = (f.make)((j * 37 + ctx.seed as usize) % f.count.max(1));
+                    if c.kv.len() <= 5000 && !c.kv.is_empty() {
+                        picked.push(c.kv);
+                    }
+                }
+            }
+        }
+        for (pi, kv) in picked.iter().enumerate() {
+            let bytes = match guard(|| build::build(Front::MapInsert, kv)) {
+                Ok(Ok(b)) => b,
+                _ => continue,
+            };
+            let map = match Map::new(bytes) {
+                Ok(m) => std::sync::Arc::new(m),
+                Err(_) => continue,
+            };
+            let kv = std::sync::Arc::new(kv.clone());
+            let results: Vec<Result<u64, String>> = std::thread::scope(|sc| {
+                let hs: Vec<_> = (0..8usize)
+                    .map(|t| {
+                        let map = map.clone();
+                        let kv = kv.clone();
+                        sc.spawn(move || -> Result<u64, String> {
+                            std::panic::catch_unwind(std::panic::AssertUnwindSafe(|| {
+                                let mut n = 0u64;
+                                for round in 0..3 {
+                                    // every thread walks the keys in another order
+                                    let len = kv.len();
+                                    for i in 0..len {
+                                        let (k, v) = &kv[(i * (2 * t + 1) + round * 7 + t * 13) % len];
+                                        if map.get(k) != Some(*v) || !map.contains_key(k) {
+                                            return Err(format!("thread {}: get({}) = {:?}, inserted with {}", t, crate::json::show_bytes(k), map.get(k), v));
+                                        }
+                                        let mut miss = k.clone();
+                                        miss.push(0xfe);
+                                        let want = kv.binary_search_by(|(x, _)| x.as_slice().cmp(&miss)).ok().map(|j| kv[j].1);
+                                        if map.get(&miss) != want {
+                                            return Err(format!("thread {}: get({}) = {:?}, model {:?}", t, crate::json::show_bytes(&miss), map.get(&miss), want));
+                                        }
+                                        n += 3;
+                                    }
+                                    if t % 2 == 0 {
+                                        use fst::Streamer;
+                                        let mut s = map.stream();
+                                        let mut i = 0;
+                                        while let Some((k, v)) = s.next() {
+                                            if i >= len || k != &kv[i].0[..] || v != kv[i].1 {
+                                                return Err(format!("thread {}: concurrent stream differs at entry {}", t, i));
+                                            }
+                                            i += 1;
+                                        }
+                                        if i != len {
+                                            return Err(format!("thread {}: concurrent stream ended after {} of {} entries", t, i, len));
+                                        }
+                                        n += len as u64;
+                                    }
+                                }
+                                Ok(n)
+                            }))
+                            .unwrap_or_else(|_| Err(format!("thread {} panicked", t)))
+                        })
+                    })
+                    .collect();
+                hs.into_iter().map(|h| h.join().unwrap_or_else(|_| Err("thread died".into()))).collect()
+            });
+            ev.count("fsts-shared-by-8-threads");
+            for r in results {
+                match r {
+                    Ok(n) => {
+                        ev.evaluations += n;
+                        ev.distinct_extra += n / 8;
+                    }
+                    Err(e) => {
+                        ev.violate("lookup-mismatch", format!("a Map shared by 8 threads (case {} of the sample): {}", pi, e), J::A(kv.iter().take(20).map(|(k, v)| J::A(vec![J::bytes(k), J::U(*v)])).collect()));
+                        break;
+                    }
+                }
+            }
+        }
+    }
     // lookups on FSTs written in history scenarios (long series of builds on one thread, builders migrating between threads)
     {
         let mut bad = 0;
@@ -343,6 +430,7 @@ pub fn run(ctx: &Ctx) -> i32 {
                 ("probe:hit", 1000),
                 ("probe:default-containers", 1000),
                 ("fsts-from-history-scenarios", 5000),
+                ("fsts-shared-by-8-threads", 8),
                 ("probe:hit:empty-key", 100),
                 ("probe:miss:empty-key", 100),
                 ("probe:miss:prefix-not-final", 1000),
